@@ -41,14 +41,16 @@ def encode(value, squared: bool = False) -> dict:
     if isinstance(value, (xr.DataArray, xr.Dataset)):
         value = value.values
     a = np.asarray(value)
-    if dims is not None:
-        return {"shape": [int(s) for s in a.shape], "data": [rat(v, squared) for v in a.reshape(-1)], "dims": dims}
     if a.dtype == object:
         raise NotRational(f"object array {a!r}"[:120])
-    return {"shape": [int(s) for s in a.shape], "data": [rat(v, squared) for v in a.reshape(-1)]}
+    out = {"shape": [int(s) for s in a.shape], "data": [rat(v, squared) for v in a.reshape(-1)], "dtype": str(a.dtype)}
+    if dims is not None:
+        out["dims"] = dims
+    return out
 
 
-DTYPES = {"f8": np.float64, "bool": np.bool_, "i1": np.int8}
+DTYPES = {"f8": np.float64, "bool": np.bool_, "i1": np.int8,
+          "int8": np.int8, "uint8": np.uint8, "float32": np.float32, "float64": np.float64}
 
 
 def as_numpy(arg: dict, dt: str = "f8"):
@@ -101,6 +103,11 @@ def call_backend(backends, case: dict, wrap):
             return _variadic(backends, "stack", arrs, axis, is_xr)
         return getattr(backends, op)(*arrs)
     arrs = [wrap(a, case.get("dt", "f8")) for a in case["args"]]
+    if k == "sbin":
+        num, den = case["idx"]
+        kind, left = case["parts"]
+        scalar = bool(num) if kind == 0 else int(num) if kind == 1 else num / den       # a genuine python bool / int / float
+        return getattr(backends, op)(scalar, arrs[0]) if left else getattr(backends, op)(arrs[0], scalar)
     if is_xr and axis < 0 and k in XR_AXIS_BY_NAME:
         raise NotInBackendApi(k)
     if k == "multi":
